@@ -205,6 +205,23 @@ def pileup_world(kind, param, annotated):
             add([[start0 + 1 + (i % 100), start0 + 600 + (i % 100)]])
         for i in range(param):
             add([[last_end - 60 + i, last_end - 10 + i]])
+    elif kind == "bridge":
+        # two genes 50 kb apart with 30 reads each and ONE read that carries the exons of both: the 57-kb cluster is cut at the coverage
+        # valley between the genes, the bridging read is processed in both sub-regions (inconsistent with a different gene in each)
+        ea = [[5001, 5300], [6001, 6300], [7001, 7300]]
+        eb = [[60001, 60300], [61001, 61300], [62001, 62300]]
+        if annotated:
+            w["genes"] = [{"id": "GA", "chr": "chr1", "strand": "+", "transcripts": [{"id": "TA", "exons": ea}]},
+                          {"id": "GB", "chr": "chr1", "strand": "+", "transcripts": [{"id": "TB", "exons": eb}]}]
+            w["sites"] = []
+            syn.plant_for_transcripts(w)
+        W.add_sites_for_blocks(w, "chr1", ea + eb, "+")
+        W.dedup_sites(w)
+        for i in range(30):
+            add(ea)
+            add(eb)
+        for i in range(param):
+            add(ea + eb)
     reads.append(W.read_of("other", "chr2", [[1001, 1400]], polya=False))
     reads.append({"name": "unm", "unmapped": True})
     reads.append(W.read_of("suppl", "chr2", [[2001, 2400]], polya=False, supplementary=True))
@@ -510,6 +527,8 @@ def run(ctx):
                 jobs.append(("single-bin-pileup", p, annotated, mode, ctx.scratch))
             for off in offsets:
                 jobs.append(("valley", off, annotated, mode, ctx.scratch))
+            for nbr in ((1,) if quick else (1, 2)):
+                jobs.append(("bridge", nbr, annotated, mode, ctx.scratch))
             for nb in ((129, 130) if quick else (127, 128, 129, 130, 131, 160, 257, 258)):
                 jobs.append(("long-sparse", nb, annotated, mode, ctx.scratch))
             for p in ((3,) if quick else (1, 3, 12)):
